@@ -19,8 +19,13 @@ theorem cond_sim {te : C.TyEnv} {sp sc : Store} (hrel : Rel te sp sc) {c : Expr}
     (hwt : c.wt te = true) (hpy : Py.eval sp c = .ok v) :
     (∃ cv, C.eval te sc c = .ok cv ∧ cv.truthy = v.truthy) ∨ UB (C.eval te sc c) := by
   rcases expr_sim te sp sc hrel c v hwt hpy with h | h
-  · left; exact ⟨_, h, conv_truthy _ _⟩
+  · left; exact ⟨_, h, conv_truthy _ _ (typed_val te sp sc hrel c v hwt hpy)⟩
   · right; exact h
+
+/-- the line the sketch prints for a written value is the one Python prints (bools are outside) -/
+theorem write_text {t : Ty} {v : Val} {ev : Ev} (hty : t.holds v = true) (hnb : t ≠ .bool) (hev : Py.writeEv v = .ok ev) :
+    Ev.write (C.conv t v).text = ev := by
+  cases t <;> cases v <;> simp_all [Ty.holds, Py.writeEv, C.conv, Val.text, Val.toInt] <;> (cases hev; rfl)
 
 theorem assign_sim {te : C.TyEnv} {stp stc : Py.St} (h : StRel te stp stc) {x : String} {e : Expr} {v : Val}
     (hwt : e.wt te = true) (hx : te.lookup x = some (inferTy te e)) (hpy : Py.eval stp.store e = .ok v) (f : Nat) :
@@ -33,7 +38,7 @@ theorem assign_sim {te : C.TyEnv} {stp stc : Py.St} (h : StRel te stp stc) {x : 
       unfold C.assignTo; rw [hx]; dsimp only; rw [conv_idem]
     rw [this, ok_bind]
     left
-    exact ⟨_, rfl, ⟨h.tr, h.fl, Rel_set_both h.rel v hx (fun ht => bool_val te _ _ h.rel e v hwt ht hpy)⟩⟩
+    exact ⟨_, rfl, ⟨h.tr, h.fl, Rel_set_both h.rel v hx (typed_val te _ _ h.rel e v hwt hpy)⟩⟩
   · right; exact ub_bind _ hc
 
 theorem sim (all : List String) (f : Nat) :
@@ -102,11 +107,9 @@ theorem sim (all : List String) (f : Nat) :
           obtain ⟨v, hv, hpy⟩ := bind_ok hpy
           obtain ⟨r, hr, hpy⟩ := bind_ok hpy
           cases hpy
-          have hwt' : (Expr.bin op (.var x) e).wt te = true := by
-            simp only [Expr.wt, hok.2, hok.1, Option.isSome_some, Bool.and_self]
           have hpy' : Py.eval stp.store (.bin op (.var x) e) = .ok r := by
             rw [Py.eval, hcur, ok_bind, hv, ok_bind]; exact hr
-          exact assign_sim hst hwt' (by rw [hok.2]; rfl) hpy' f
+          exact assign_sim hst hok.1 hok.2 hpy' f
         · cases htr
       | tuple k xs es =>
         rw [trNested] at htr
@@ -147,7 +150,7 @@ theorem sim (all : List String) (f : Nat) :
         rw [Py.exec] at hpy
         obtain ⟨v, hv, hpy⟩ := bind_ok hpy
         rw [C.exec]
-        rcases cond_sim hst.rel hok.1.1 hv with ⟨cv, hc, hcv⟩ | hc
+        rcases cond_sim hst.rel (okCond_wt hok.1.1) hv with ⟨cv, hc, hcv⟩ | hc
         · rw [hc, ok_bind]
           rw [hcv]
           split at hpy
@@ -170,7 +173,7 @@ theorem sim (all : List String) (f : Nat) :
         rw [Py.exec] at hpy
         obtain ⟨v, hv, hpy⟩ := bind_ok hpy
         rw [C.exec]
-        rcases cond_sim hst.rel hok.1 hv with ⟨cv, hc, hcv⟩ | hc
+        rcases cond_sim hst.rel (okCond_wt hok.1) hv with ⟨cv, hc, hcv⟩ | hc
         · rw [hc, ok_bind]
           rw [hcv]
           split at hpy
@@ -201,10 +204,13 @@ theorem sim (all : List String) (f : Nat) :
           cases htr
           simp only [Stmt.okNested, Bool.and_eq_true, Bool.not_eq_true', List.contains_eq_mem,
             decide_eq_false_iff_not, Option.isNone_iff_eq_none, List.all_eq_true] at hok
-          obtain ⟨⟨⟨⟨hnwt, hiall⟩, hi⟩, hnv⟩, hbok⟩ := hok
+          obtain ⟨⟨⟨⟨hnc, hiall⟩, hi⟩, hnv⟩, hbok⟩ := hok
+          have hnwt := okCond_wt hnc
           simp only [Stmt.assigned] at hall
           rw [Py.exec] at hpy
           obtain ⟨nv, hnvv, hpy⟩ := bind_ok hpy
+          obtain ⟨kk, hkk, hpy⟩ := bind_ok hpy
+          obtain ⟨rfl, _⟩ := num_ok hkk
           rw [C.exec]
           -- the state in which the C loop starts
           have hst0 : StRel te stp { stc with store := stc.store.set i (.int 0) } :=
@@ -248,20 +254,19 @@ theorem sim (all : List String) (f : Nat) :
         · rw [hc, ok_bind]
           left
           refine ⟨_, rfl, ⟨?_, hst.fl, hst.rel⟩⟩
-          cases v with
-          | bool b => cases hev
-          | int k =>
-            cases hev
-            show Ev.write (C.conv (inferTy te e) (Val.int k)).toInt :: stc.trace = _
-            rw [hok.2, hst.tr]; rfl
+          have hty := typed_val te _ _ hst.rel e v hok.1 hv
+          show Ev.write (C.conv (inferTy te e) v).text :: stc.trace = _
+          rw [hst.tr, write_text hty (by simpa using hok.2) hev]
         · right; exact ub_bind _ hc
       | sleep e =>
         rw [trNested] at htr; cases htr
         simp only [Stmt.okNested] at hok
         rw [Py.exec] at hpy
         obtain ⟨v, hv, hpy⟩ := bind_ok hpy
+        obtain ⟨ms, hms, hpy⟩ := bind_ok hpy
+        obtain ⟨rfl, _⟩ := num_ok hms
         rw [C.exec]
-        rcases foldArg_sim te _ _ hst.rel e v hok hv with ⟨cv, hc, hcv⟩ | hc
+        rcases foldArg_sim te _ _ hst.rel e v (okCond_wt hok) hv with ⟨cv, hc, hcv⟩ | hc
         · rw [hc, ok_bind]
           rw [hcv]
           split at hpy
